@@ -240,15 +240,21 @@ class Session:
             sid, steps = self.pick_value_path()
             text = G.rand_text(rng, rng.choice([4, 12, 40, 300]))
             p = self.ptr_at(sid, steps)
-            if op == 'copy_char':
-                rc = L.call('cif_value_copy_char', p, U(text))
+            if rng.random() < 0.06:
+                # no text at all: refused, and the value keeps what it held (the model is not updated)
+                rc = L.call('cif_value_copy_char' if op == 'copy_char' else 'cif_value_init_char', p, None)
+                self.expect(op + '(NULL)', rc, {CIF_ARGUMENT_ERROR})
+                self.ctx.count('null_text_refusals')
             else:
-                t = L.malloc_ustr(text)
-                rc = L.call('cif_value_init_char', p, t)
-                if rc != CIF_OK:
-                    L.vp_free(t)
-            self.expect(op, rc, {CIF_OK})
-            self.update(sid, steps, ('char', text, True))
+                if op == 'copy_char':
+                    rc = L.call('cif_value_copy_char', p, U(text))
+                else:
+                    t = L.malloc_ustr(text)
+                    rc = L.call('cif_value_init_char', p, t)
+                    if rc != CIF_OK:
+                        L.vp_free(t)
+                self.expect(op, rc, {CIF_OK})
+                self.update(sid, steps, ('char', text, True))
             touched_v.add(sid)
         elif op == 'parse_numb':
             sid, steps = self.pick_value_path()
